@@ -42,7 +42,8 @@ var names = sync.OnceValue(func() []string {
 const nPlain = 24
 
 type Op struct {
-	K    string        `json:"k"` // w d reopen
+	K    string        `json:"k"` // w d reopen fit
+	D    int           `json:"delta,omitempty"` // fit: string value sized so that the header message area becomes 255+D bytes
 	Name int           `json:"name"`
 	A    *hist.AttrVal `json:"a,omitempty"`
 }
@@ -97,7 +98,9 @@ func gen(t *rapid.T) Case {
 		if burst && i < 10 {
 			op = Op{K: "w", Name: i % pool, A: genVal(t)}
 		} else {
-			switch rapid.SampledFrom([]string{"w", "w", "w", "w", "d", "d", "reopen"}).Draw(t, "k") {
+			switch rapid.SampledFrom([]string{"w", "w", "w", "w", "d", "d", "reopen", "fit"}).Draw(t, "k") {
+			case "fit":
+				op = Op{K: "fit", Name: nameGen.Draw(t, "name"), D: rapid.IntRange(-4, 6).Draw(t, "delta"), A: &hist.AttrVal{Kind: "str", Seed: rapid.IntRange(0, 999).Draw(t, "fseed")}}
 			case "w":
 				op = Op{K: "w", Name: nameGen.Draw(t, "name"), A: genVal(t)}
 			case "d":
@@ -111,6 +114,7 @@ func gen(t *rapid.T) Case {
 			}
 		}
 		if c.Obj == "group" && op.K != "w" {
+			op.D = 0
 			op = Op{K: "w", Name: nameGen.Draw(t, "name"), A: genVal(t)} // groups: no delete API, no handle after reopen
 		}
 		c.Ops = append(c.Ops, op)
@@ -124,6 +128,8 @@ func classify(c Case) (bool, []string) {
 	maxLive, sizeChanging, rewrites, reopens, dels := 0, 0, 0, 0, 0
 	for _, op := range c.Ops {
 		switch op.K {
+		case "fit":
+			live[op.Name] = -1
 		case "w":
 			sz := op.A.N*100 + len(op.A.Kind)
 			if old, ok := live[op.Name]; ok && old != sz {
@@ -224,6 +230,23 @@ func run(c Case) vt.Verdict {
 				}
 				liveHash[h]++
 			}
+		case "fit":
+			_, had := ex.M.Resolve(target).Attrs[pool[op.Name]]
+			seed := 0
+			if op.A != nil {
+				seed = op.A.Seed
+			}
+			st = ex.Apply(hist.Op{K: "attrfit", Path: target, Name: pool[op.Name], Delta: op.D, Seed: seed})
+			if strings.HasPrefix(st.Err, "skipped") {
+				continue
+			}
+			if st.Err == "" && !had {
+				h := refimpl.Lookup3([]byte(pool[op.Name]), 0)
+				if liveHash[h] > 0 {
+					collision = true
+				}
+				liveHash[h]++
+			}
 		case "d":
 			_, had := ex.M.Resolve(target).Attrs[pool[op.Name]]
 			st = ex.Apply(hist.Op{K: "delattr", Path: target, Name: pool[op.Name]})
@@ -280,5 +303,5 @@ func TestProp(t *testing.T) {
 	if len(names()) != nPlain+4 {
 		t.Fatalf("could not construct colliding name pairs")
 	}
-	vt.Run(t, prop, vt.Sub[Case]{Prop: prop, Name: "history", Gen: gen, Run: run, Classify: classify}.WithBudget(2500, 25000))
+	vt.Run(t, prop, vt.Sub[Case]{Prop: prop, Name: "history", Gen: gen, Run: run, Classify: classify}.WithBudget(1200, 6000))
 }
